@@ -196,7 +196,36 @@ def c12(tier):
             dict(model="sparefixed", configs=cfgs(["stack24x3", "stackn3", "stack8x3p"], (R, D))),
             dict(model="elem", configs=cfgs(["heap160a32", "heap64n", "heap1n", "heap16d", "heap32d"], (R,)))]
 
+def c19(tier):
+    NA = False
+    if tier == "quick":
+        return [dict(model="fixed", configs=[("stack8x3p", R, NA)]), dict(model="elem", configs=[("stack24x3", R, NA)]),
+                dict(model="clonefixed", configs=[("stack8c", R, NA), ("stackn3", R, NA)])]
+    return [dict(model="fixed", configs=[("stack8x3p", R, NA), ("stackn3", R, NA), ("stack24x3", D, NA)]),
+            dict(model="elem", configs=[("stack24x3", R, NA), ("stackn3", D, NA)]), dict(model="range", configs=[("stack24x3", R, NA)]),
+            dict(model="clonefixed", configs=[("stack8c", R, NA), ("stackn3", R, NA), ("stack8c", D, NA)]),
+            dict(model="cap", configs=[("fence8d", R, NA)]), dict(model="shift", configs=[("fence24d", R, NA)])]
+
 PLAN = {
+    "C16": dict(runner=probes.run_c16, level="model_checking", engine="tla-rules",
+                technique="TLA+ loan rule model; TLC enumerates (method, conflicting statement) cases; each rendered as a Rust program + conflict-free control and decided by rustc",
+                claim="The loan rule model (AnyVecBorrow.tla) states which statements are legal while a handle from each of 26 handle-producing "
+                      "methods (erased and typed) holds a shared or exclusive loan: mutate / read / second exclusive / second shared / move / drop the "
+                      "source, escape its scope, consume a by-value handle twice; plus second-level loans (borrows obtained through a mutable typed "
+                      "view reused after a mutation through it, two simultaneous mutable paths, lazy clones outliving their source, items outliving "
+                      "their iterator). TLC enumerates all cases; every case is compiled with its conflict-free control: the control must compile, a "
+                      "must-reject program must fail with an ownership/borrow error, a legal one must compile.",
+                rule="cases = all records of AnyVecBorrow!Cases; each is two compilations (program + control); distinct = (kind, method, statement)",
+                note="Method table and program templates are transcribed from the public API by hand; a new handle-producing method is not covered until added. rustc is trusted."),
+    "C19": dict(campaigns=c19, extra=probes.run_c19_extra, level="model_checking",
+                claim="The replay harness is built a second time against default-features = false and replays the fixed-capacity, element-wise and "
+                      "clone models on stack backends; TLC judges every event with the same contract as the default build (identical behaviour = "
+                      "both satisfy the same exact contract). TLC-enumerated feature cases decide by compilation that Heap does not exist without "
+                      "`alloc` while Stack/StackN/Empty do, and a freestanding #![no_std] program WITHOUT a global allocator that drives a stack "
+                      "vector through the complete operation set must link and run (with a negative control: forcing the alloc feature must make "
+                      "the link fail for lack of an allocator).",
+                rule="cases = all transitions of the listed models on stack backends in the no-alloc build, plus the feature and link probes; "
+                     "non-trivial = any operation at depth >= 2"),
     "C15": dict(runner=probes.run_c15, level="model_checking", engine="tla-rules",
                 technique="TLA+ rule model of the auto-trait / constructor / method surface; TLC enumerates all cases; rustc verdicts compared",
                 claim="The TLA+ rule model (AnyVecTraits.tla) derives from first principles which types may be Send/Sync and which constructors "
